@@ -4,3 +4,5 @@ import sim.bytechan  # noqa: F401
 import sim.clichan  # noqa: F401
 import sim.unitchan  # noqa: F401
 import sim.fsched  # noqa: F401
+import sim.apihist  # noqa: F401
+import sim.csvchan  # noqa: F401
